@@ -242,6 +242,12 @@ func runC18(k *kernel.K) {
 			e.body = full
 			e.resp = &RespSpec{Status: 200, Framing: "cl", Body: e.body}
 		}
+		if e.total > 0 && w.Chance(1, 8) {
+			// the origin frames the body in chunks; the proxy relays it chunked
+			e.resp.Framing = "chunked"
+			e.resp.Chunks = []int{[]int{100, 700, 4096}[w.Draw(3)]}
+			k.Probe("chunked_response")
+		}
 		if w.Chance(1, 6) {
 			// a response head larger than the proxy's 4 KiB write buffer reaches the shaped
 			// connection in more than one Write
@@ -486,7 +492,7 @@ func c18Check(k *kernel.K, e *tsEx, cl *Client, model *tsConfig, latency time.Du
 			for _, s := range stamps {
 				ws = append(ws, fmt.Sprintf("%d@%v", s.cum, s.at))
 			}
-			k.Fail("C18.close_offset", map[string]string{"range_start": fmt.Sprint(e.rangeStart > 0)}, "%s: close action at absolute byte %d: client received %d body bytes, want exactly %d (then close); head %d bytes; cumulative writes on the connection %v; client parser consumed %d bytes in total, responses %s", desc, closeAt, len(got.Body), len(wantBody), got.HeadLen, ws, cl.P.Total, func() string {
+			k.Fail("C18.close_offset", map[string]string{"range_start": fmt.Sprint(e.rangeStart > 0), "framing": e.resp.Framing}, "%s: close action at absolute byte %d: client received %d body bytes, want exactly %d (then close); head %d bytes; cumulative writes on the connection %v; client parser consumed %d bytes in total, responses %s", desc, closeAt, len(got.Body), len(wantBody), got.HeadLen, ws, cl.P.Total, func() string {
 				var out []string
 				for _, m := range append(append([]*wire.Msg(nil), cl.P.Msgs...), got) {
 					out = append(out, fmt.Sprintf("[%d head=%d cl=%d body=%d %v]", m.Status, m.HeadLen, m.DeclaredCL, len(m.Body), m.Header))
@@ -506,6 +512,13 @@ func c18Check(k *kernel.K, e *tsEx, cl *Client, model *tsConfig, latency time.Du
 			k.Fail("C18.bytes_exact", map[string]string{"shaped": "true"}, "%s: no close action applies, yet the client did not receive the response intact (complete=%v, %d of %d body bytes, first difference at %d, eof=%v)", desc, complete, len(got.Body), len(e.body), d, cl.SawEOF)
 			return
 		}
+	}
+	if e.resp.Framing == "chunked" {
+		// The shaped connection counts the bytes it writes after the head, chunk-size lines
+		// included, so for a chunked response its offsets are not body offsets (known finding
+		// C18-chunk-framing-counted-in-offsets, reported through close_offset above); where a halt or
+		// a throttle boundary falls in the body is therefore not judged here.
+		return
 	}
 	// halts: between the byte before the halt offset and the byte at it, at least the duration passes
 	headLen := int64(got.HeadLen)
@@ -662,6 +675,9 @@ func c18CheckStale(k *kernel.K, e *tsEx, cl *Client, oldModel, newModel *tsConfi
 		}
 		if oldClose >= 0 && got != nil && got.HeadDone && int64(n) == oldClose-e.rangeStart && bytes.Equal(got.Body, e.body[:n]) {
 			return // the shaping the connection was accepted under still applies: allowed
+		}
+		if e.resp.Framing == "chunked" && oldClose >= 0 && got != nil && got.HeadDone && int64(n) < oldClose-e.rangeStart && bytes.Equal(got.Body, e.body[:n]) {
+			return // the old close, at a wire offset (see the known finding about chunk framing)
 		}
 		how := "matches neither the old nor the new shape set"
 		if newClose >= 0 && int64(n) == newClose-e.rangeStart {
